@@ -106,10 +106,11 @@ def serialize(af, fmt, cdata=False, decl=True, typed=False, style=None):
     style (all optional; the default is the canonical serialisation): {"perm": int} orders the metadata children of the feed
     and of every entry by a permutation drawn from that seed (no format fixes the order of these children); {"prefix": p}
     binds the format's own namespace (Atom 0.3 / 1.0, RSS 1.0) to the prefix p instead of using it as the default namespace,
-    {"dcprefix": p} renames the Dublin Core prefix of the RSS 1.0 serialisation.  An abstract entry may carry "content"
+    {"dcprefix": p} / {"rdfprefix": p} rename the Dublin Core / RDF prefix of the RSS 1.0 serialisation.  An abstract entry may carry "content"
     (full text, serialised HTML-typed: content:encoded / atom content / content_html) beside its summary."""
     style = style or {}
     perm, pfx, dcp = style.get("perm"), style.get("prefix"), style.get("dcprefix") or "dc"
+    rdfp = style.get("rdfprefix") or "rdf"
     q = (lambda n: "%s:%s" % (pfx, n)) if pfx else (lambda n: n)
     caps = CAPS[fmt]
     H = (lambda s, c=False: T(esc(s), c)) if typed else T
@@ -140,19 +141,19 @@ def serialize(af, fmt, cdata=False, decl=True, typed=False, style=None):
         return "".join(out)
     if fmt == "rss10":
         rssns = ('xmlns:%s="http://purl.org/rss/1.0/"' % pfx) if pfx else 'xmlns="http://purl.org/rss/1.0/"'
-        out = [head, '<rdf:RDF xmlns:rdf="http://www.w3.org/1999/02/22-rdf-syntax-ns#" %s xmlns:%s="http://purl.org/dc/elements/1.1/"%s>' % (
-            rssns, dcp, ' xmlns:content="http://purl.org/rss/1.0/modules/content/"' if anycontent else "")]
+        out = [head, '<%s:RDF xmlns:%s="http://www.w3.org/1999/02/22-rdf-syntax-ns#" %s xmlns:%s="http://purl.org/dc/elements/1.1/"%s>' % (
+            rdfp, rdfp, rssns, dcp, ' xmlns:content="http://purl.org/rss/1.0/modules/content/"' if anycontent else "")]
         meta = ["<%s>%s</%s>" % (q("title"), T(af["title"], cdata), q("title")), "<%s>%s</%s>" % (q("link"), esc(af["link"]), q("link")),
                 "<%s>%s</%s>" % (q("description"), H(af["description"], cdata), q("description")), "<%s:date>%s</%s:date>" % (dcp, d3339(af["updated"]), dcp)]
-        out += ['<%s rdf:about="%s">' % (q("channel"), aesc(af["link"]))] + _arr(meta, perm, 0) + ["</%s>" % q("channel")]
+        out += ['<%s %s:about="%s">' % (q("channel"), rdfp, aesc(af["link"]))] + _arr(meta, perm, 0) + ["</%s>" % q("channel")]
         for i, e in enumerate(af["entries"]):
             ch = ["<%s>%s</%s>" % (q("title"), T(e["title"], cdata), q("title")), "<%s>%s</%s>" % (q("link"), esc(e["link"]), q("link")),
                   "<%s>%s</%s>" % (q("description"), H(e["summary"], cdata), q("description")), "<%s:creator>%s</%s:creator>" % (dcp, esc(e["author_name"]), dcp),
                   "<%s:date>%s</%s:date>" % (dcp, d3339(e["updated"]), dcp), "".join("<%s:subject>%s</%s:subject>" % (dcp, T(c, cdata), dcp) for c in e["categories"])]
             if e.get("content") is not None:
                 ch.append("<content:encoded>%s</content:encoded>" % HH(e["content"], cdata))
-            out += ['<%s rdf:about="%s">' % (q("item"), aesc(e["id"]))] + _arr(ch, perm, i + 1) + ["</%s>" % q("item")]
-        out.append("</rdf:RDF>")
+            out += ['<%s %s:about="%s">' % (q("item"), rdfp, aesc(e["id"]))] + _arr(ch, perm, i + 1) + ["</%s>" % q("item")]
+        out.append("</%s:RDF>" % rdfp)
         return "".join(out)
     E = lambda n, body, attrs="": "<%s%s>%s</%s>" % (q(n), attrs, body, q(n))
     V = lambda n, attrs: "<%s%s/>" % (q(n), attrs)
